@@ -22,6 +22,11 @@ def run_rel(pid, kinds, tier, seed, res, lean, rule, per_quick=40, per_thorough=
         res.violations.append(Violation(f'{p}-hash', b['problems'][0][:300], {'suite': 'S-REL', **b}))
     for b in memo_bad[:4]:
         res.violations.append(Violation(f'{p}-memo', b['problems'][0][:300], {'suite': 'S-REL', **b}))
+    # S-STOP: the user function a dataset-wide layer evaluates per id raises StopIteration: never taken for the end of the ids
+    from .. import suite_stop
+    for kind in ([k for k in ('filter', 'groupby') if k in kinds]):
+        for p_ in [x for x in suite_stop.run(kind) if x['severity'] != 'class-changed'][:2]:
+            res.violations.append(Violation(f'{p}-stopiteration', p_['msg'][:400], {'suite': 'S-STOP', **p_}))
     if model_bad and not oracle_bad:
         res.violations.append(Violation(
             f'{p}-correspondence', 'the real pipeline and CM.Model.Rel disagree; theorems no longer tied to the code',
